@@ -404,6 +404,9 @@ def register_pytree_node(
         raise TypeError(f'The namespace must be a string, got {namespace!r}.')
     if namespace == '':
         raise ValueError('The namespace cannot be an empty string.')
+    if cls is structseq:
+        # The registry entry for all PyStructSequence types is stored under this key.
+        raise ValueError(f'PyTree type {cls!r} is a built-in type and cannot be re-registered.')
 
     registration_key: type | tuple[str, type]
     if namespace is __GLOBAL_NAMESPACE:
